@@ -13,6 +13,10 @@ import (
 	"encoding/hex"
 	"errors"
 	"fmt"
+	"go/ast"
+	"go/parser"
+	"go/token"
+	"go/types"
 	"io"
 	"os"
 	"os/exec"
@@ -322,6 +326,8 @@ func runOp(f []string) string {
 	case "I":
 		v, _ := strconv.ParseInt(f[1], 10, 64)
 		return hx([]byte(strconv.FormatInt(v, 10)))
+	case "GP": // GP <path>: parse a generated Go file with go/parser; the string list of its single var declaration
+		return goParseList(f[1])
 	// ---- default randomness source (C07)
 	case "W": // identity of the pre-swap source
 		swapMu.Lock()
@@ -346,6 +352,57 @@ func runOp(f []string) string {
 		return sb.String()
 	}
 	panic("unknown op " + f[0])
+}
+
+func goParseList(path string) string {
+	fs := token.NewFileSet()
+	file, err := parser.ParseFile(fs, path, nil, 0)
+	if err != nil {
+		return "err parse " + hx([]byte(err.Error()))
+	}
+	if file.Name.Name != "wordlist" {
+		return "err package " + file.Name.Name
+	}
+	var name string
+	var words []string
+	n := 0
+	for _, d := range file.Decls {
+		g, ok := d.(*ast.GenDecl)
+		if !ok || g.Tok != token.VAR {
+			return "err unexpected declaration"
+		}
+		for _, sp := range g.Specs {
+			vs := sp.(*ast.ValueSpec)
+			if len(vs.Names) != 1 || len(vs.Values) != 1 {
+				return "err shape"
+			}
+			cl, ok := vs.Values[0].(*ast.CompositeLit)
+			if !ok || types.ExprString(cl.Type) != "[]string" {
+				return "err not a []string literal"
+			}
+			name = vs.Names[0].Name
+			n++
+			for _, e := range cl.Elts {
+				bl, ok := e.(*ast.BasicLit)
+				if !ok || bl.Kind != token.STRING {
+					return "err element is not a string literal"
+				}
+				v, err := strconv.Unquote(bl.Value)
+				if err != nil {
+					return "err unquote"
+				}
+				words = append(words, v)
+			}
+		}
+	}
+	if n != 1 {
+		return "err number of declarations"
+	}
+	hs := make([]string, len(words))
+	for i, w := range words {
+		hs[i] = hx([]byte(w))
+	}
+	return fmt.Sprintf("ok %s %d %s", hx([]byte(name)), len(words), strings.Join(hs, ","))
 }
 
 func runHistory(line string) string {
